@@ -244,6 +244,37 @@ def run(ctx):
                     _re.match(r"^sum\(\[isarray\.get\((\w+), False\) for \1 in [\w\.]+\]\) > 1$", norm(parts[1])):
                 branch = st
     if branch is None:
+        # not the known spelling: decide the test by evaluating it (finite case analysis).  The pointwise branch is needed exactly for a
+        # variable that holds two or more of the list-selected dimensions - numpy would zip their lists in one subscript
+        from .. import consteval as _ce
+        cases = [({'a': True, 'b': True, 'c': True}, ('a', 'b', 'c'), True), ({'a': True, 'b': True, 'c': True}, ('a', 'b'), True), ({'a': True, 'b': True, 'c': True}, ('t', 'b', 'c'), True),
+                 ({'a': True, 'b': True, 'c': True}, ('a',), False), ({'a': True, 'b': True, 'c': True}, ('t',), False), ({'a': True, 'b': True}, ('a', 'b'), True),
+                 ({'a': True, 'b': True}, ('t', 'a'), False), ({'a': True, 'b': False}, ('a', 'b'), False), ({'a': True, 'b': True, 't': False}, ('t', 'a', 'b'), True)]
+        for st in iter_stmts(fn.body):
+            if isinstance(st, ast.If) and any(isinstance(n, ast.Subscript) and isinstance(n.value, ast.Name) and n.value.id == 'varo'
+                                              for s2 in iter_stmts(st.body) for n in walk_expr(s2)):
+                test = _paths.subst(st.test, _paths.dominating_env(fn, st, keep=('isarray', 'varo', 'sliceo', 'vdims')))
+                wrong = unk = None
+                for isa, vd, want in cases:
+                    def hook(n, isa=isa, vd=vd):
+                        if norm(n) in ('varo.dimensions', 'vdims', 'tuple(varo.dimensions)'):
+                            return vd
+                        return None
+                    got = _ce.ev(test, {'isarray': isa, 'vdims': vd}, hook)
+                    if got is _ce.UNK:
+                        unk = (isa, vd)
+                        break
+                    if bool(got) != want:
+                        wrong = wrong or (isa, vd, bool(got))
+                if unk is None and wrong is None:
+                    branch = st
+                elif unk is None:
+                    ctx.violation(Finding('R-ADVIDX', RP, Q, st, 'with index lists on %s a variable with dimensions %s takes the %s branch: %s' % (
+                        sorted(k for k, v in wrong[0].items() if v), wrong[1], 'pointwise' if wrong[2] else 'plain',
+                        'numpy zips the lists of one subscript, so the block comes out with shape (n,) and is broadcast into the (n, n) variable that was prepared for it'
+                        if not wrong[2] else 'a variable with one listed dimension is gathered point by point')))
+                    return
+    if branch is None:
         raise AnalysisError('construct not understood: fancy / plain branches of sliceDimensions')
 
     def sites(stmts):
